@@ -415,6 +415,77 @@ def _stress_worker(path, barrier, k, seed, n_ops, q, repo):
         q.put((k, "err", f"{type(e).__name__}: {e} | {traceback.format_exc()[-300:]}"))
 
 
+def _first_open_worker(path, barrier, k, q, repo):
+    import sys
+    try:
+        if sys.path[0] != repo:
+            sys.path.insert(0, repo)
+        import tupimage.id_manager as idm
+        barrier.wait(60)
+        m = idm.IDManager(path)
+        id_ = m.get_id(f"first-{k}", idm.IDSpace(8, False), subspace=idm.IDSubspace(0, 256))
+        m.close()
+        q.put((k, "ok", id_))
+    except BaseException as e:  # noqa: BLE001
+        import traceback
+        q.put((k, "err", f"{type(e).__name__}: {e} | {traceback.format_exc()[-300:]}"))
+
+
+def first_open_race(ctx, idm, cov, rounds, n_proc):
+    """Real processes released together by a barrier construct IDManager on a database file that does not exist
+    yet, then allocate one id each.  SQLite answers SQLITE_BUSY to `PRAGMA journal_mode=WAL` at once (the busy handler
+    is not consulted) while another connection holds a lock: an unrepeated switch fails in roughly one constructor
+    out of ten under this load (measured on the pinned tree: 35 of 320)."""
+    mpctx = mp.get_context("fork")
+    t0 = time.time()
+    fails = 0
+    for rd in range(rounds):
+        d = os.path.join(ctx.work, f"open-{rd}")
+        os.makedirs(d, exist_ok=True)
+        path = os.path.join(d, "session.db")
+        barrier = mpctx.Barrier(n_proc)
+        q = mpctx.Queue()
+        ps = [mpctx.Process(target=_first_open_worker, args=(path, barrier, k, q, common.REPO)) for k in range(n_proc)]
+        for p in ps:
+            p.start()
+        res = []
+        try:
+            for _ in ps:
+                res.append(q.get(timeout=240))
+        except Exception:  # noqa: BLE001
+            ctx.violations.append({"signature": {"class": "stress-timeout", "scenario": "first-open"}, "what": f"{n_proc} simultaneous first opens did not finish within 240 s",
+                                   "case": {"kind": "first-open", "n_proc": n_proc}})
+        for p in ps:
+            p.join(5)
+            if p.is_alive():
+                p.kill()
+        case = {"kind": "first-open", "n_proc": n_proc, "rounds": 20}
+        for k, st, payload in res:
+            if st != "ok":
+                fails += 1
+                cls = "locking-or-constraint-error" if ("OperationalError" in str(payload) or "IntegrityError" in str(payload)) else "unexpected-exception"
+                ctx.violations.append({"signature": {"class": cls, "scenario": "first-open"},
+                                       "what": f"process {k} of {n_proc} processes opening a fresh database together failed: {str(payload)[:200]}", "case": case})
+        ids = [payload for _, st, payload in res if st == "ok"]
+        if len(set(ids)) != len(ids):
+            ctx.violations.append({"signature": {"class": "same-id-two-descriptions", "scenario": "first-open"}, "what": f"ids handed out after a simultaneous first open: {sorted(ids)}", "case": case})
+        import sqlite3
+        conn = sqlite3.connect(path)
+        n_obj = len(conn.execute("SELECT name FROM sqlite_master WHERE name NOT LIKE 'sqlite_%'").fetchall())
+        mode = conn.execute("PRAGMA journal_mode").fetchone()[0]
+        conn.close()
+        if n_obj != 17:
+            ctx.violations.append({"signature": {"class": "schema-incomplete", "scenario": "first-open"}, "what": f"{n_obj} schema objects after a simultaneous first open", "case": case})
+        if res and all(st == "ok" for _, st, _ in res) and str(mode).lower() != "wal":
+            ctx.violations.append({"signature": {"class": "not-wal", "scenario": "first-open"}, "what": f"journal mode is {mode!r} after every constructor completed", "case": case})
+        cov.add({"first-open": rd, "seed": ctx.seed}, klass=f"first-open/{n_proc}proc")
+        shutil.rmtree(d, ignore_errors=True)
+        if fails:
+            break
+    cov.bump("first-open-constructors", rounds * n_proc if not fails else (rd + 1) * n_proc)
+    cov.bump("first-open-wall-ms", int(1000 * (time.time() - t0)))
+
+
 def stress(ctx, idm, cov, rounds, n_proc, n_ops):
     mpctx = mp.get_context("fork")
     for rd in range(rounds):
@@ -524,6 +595,7 @@ def run(ctx, model):
             cov.bump("found:" + f)
     cov.bump("model-events", sum(len(o["events"]) for _, o in pending))
     stress(ctx, idm, cov, rounds=ctx.pick(3, 12), n_proc=ctx.pick(4, 8), n_ops=ctx.pick(40, 200))
+    first_open_race(ctx, idm, cov, rounds=ctx.pick(40, 400), n_proc=8)
     return cov
 
 
@@ -531,6 +603,10 @@ def replay(ctx, model, rec):
     case = rec["case"]
     tup = common.import_impl()
     idm = tup.id_manager
+    if case.get("kind") == "first-open":
+        before = len(ctx.violations)
+        first_open_race(ctx, idm, common.Coverage("replay"), case.get("rounds", 20), case.get("n_proc", 8))
+        return {"violates": len(ctx.violations) > before, "note": "a race between real processes: not schedule-deterministic; 20 rounds of 8 simultaneous first opens"}
     if case.get("kind") == "stress":
         class C:  # minimal ctx for a single round with the recorded seeds
             pass
